@@ -12,7 +12,9 @@
      v_ackctx  - the worker acknowledges with
                    select { case ResumeCh <- struct{}{}: case <-ctx.Done(): return }
                  (false: the bare blocking send  ResumeCh <- struct{}{}  of the original code)
-     v_mutex   - Pause and Resume are serialised by one mutex (false: original code)
+     v_mutex   - Resume holds the manager mutex from its first to its last step (false: original code)
+     v_pmutex  - Pause holds the same mutex (false: original code; with v_mutex alone a Pause can
+                 return, having done nothing, while a Resume is still collecting)
      v_early   - Resume returns at once when nothing is paused (false: original code, Resume
                  always waits for one send from every subscriber)
      v_closep  - Unsubscribe closes PauseCh (original code); false: only ResumeCh is closed
@@ -22,18 +24,21 @@
 From Coq Require Export List Arith Bool PeanoNat.
 Export ListNotations.
 
-Record variant := V { v_ackctx : bool; v_mutex : bool; v_early : bool; v_closep : bool; v_unsubmutex : bool }.
-Definition orig  : variant := V false false false true false.
-Definition fixed : variant := V true true true false false.
+Record variant := V { v_ackctx : bool; v_mutex : bool; v_pmutex : bool; v_early : bool; v_closep : bool;
+                     v_unsubmutex : bool }.
+Definition orig  : variant := V false false false false true false.
+Definition fixed : variant := V true true true true false false.
 
 (* ---- stage worker (one subscriber) ----
    WRun    in the main select { ctx.Done / PauseCh / input }
+   WBusy   took an item from the input channel and is handling it (not looking at its channels;
+           the item ends by itself, or - the output select has a ctx.Done arm - by cancellation)
    WAck    took the pause token, blocked acknowledging on ResumeCh
    WDel    returned from the loop; deferred Unsubscribe about to run  subscribers.Delete
    WCloseP about to  close(PauseCh)      (only when v_closep)
    WCloseR about to  close(ResumeCh)
    WGone   Unsubscribe finished, wg.Done() *)
-Inductive wpc := WRun | WAck | WDel | WCloseP | WCloseR | WGone.
+Inductive wpc := WRun | WBusy | WAck | WDel | WCloseP | WCloseR | WGone.
 
 Record wst := W {
   w_pc : wpc;
@@ -94,6 +99,12 @@ Definition take (v : variant) (s : state) (o : owner) : state :=
   if v_mutex v then set_holder s (Some o) else s.
 Definition release (v : variant) (s : state) : state :=
   if v_mutex v then set_holder s None else s.
+(* the same for Pause *)
+Definition plock_free (v : variant) (s : state) : bool := negb (v_pmutex v) || free s.
+Definition ptake (v : variant) (s : state) (o : owner) : state :=
+  if v_pmutex v then set_holder s (Some o) else s.
+Definition prelease (v : variant) (s : state) : state :=
+  if v_pmutex v then set_holder s None else s.
 
 Inductive kind := KPause | KResume.
 
@@ -101,7 +112,7 @@ Inductive label :=
 (* environment: invocations and work arriving *)
 | LCall (c : nat) (k : kind)     (* controller c calls Pause() / Resume() *)
 | LStop (w : nat)                (* worker w's context is cancelled (stage Stop / worker exit) *)
-| LWork (w : nat)                (* worker w takes one item from its input channel and handles it *)
+| LWork (w : nat)                (* worker w takes one item from its input channel *)
 (* Pause *)
 | LPauseBegin (c : nat)          (* [Lock;] CompareAndSwap(false,true); Range starts or call returns *)
 | LPauseVisit (c w : nat)        (* Range loads key w: callback entered if still present *)
@@ -119,7 +130,9 @@ Inductive label :=
 | LAckStop (w : nat)             (* case <-ctx.Done() in the acknowledging select (v_ackctx) *)
 | LUnsubDelete (w : nat)         (* subscribers.Delete *)
 | LUnsubCloseP (w : nat)         (* close(PauseCh) *)
-| LUnsubCloseR (w : nat).        (* close(ResumeCh); wg.Done *)
+| LUnsubCloseR (w : nat)         (* close(ResumeCh); wg.Done *)
+| LDone (w : nat)                (* the item is handled and passed on: back to the main select *)
+| LBusyStop (w : nat).           (* case <-ctx.Done() in the select that passes the item on *)
 
 (* system labels: steps the program takes by itself once calls have been invoked *)
 Definition sys (l : label) : bool :=
@@ -137,14 +150,33 @@ Definition step (v : variant) (s : state) (l : label) : option state :=
       else None
   | LStop w => if w <? nw s then Some (set_w s w (wset_stop (wk s w))) else None
   | LWork w =>
-      if w <? nw s then match w_pc (wk s w) with WRun => Some s | _ => None end else None
+      if w <? nw s then
+        match w_pc (wk s w) with
+        | WRun => Some (set_w s w (wset_pc (wk s w) WBusy))
+        | _ => None
+        end
+      else None
+  | LDone w =>
+      if w <? nw s then
+        match w_pc (wk s w) with
+        | WBusy => Some (set_w s w (wset_pc (wk s w) WRun))
+        | _ => None
+        end
+      else None
+  | LBusyStop w =>
+      if w <? nw s then
+        match w_pc (wk s w) with
+        | WBusy => if w_stop (wk s w) then Some (set_w s w (wset_pc (wk s w) WDel)) else None
+        | _ => None
+        end
+      else None
   | LPauseBegin c =>
       if c <? nc s then
         match ct s c with
         | CPStart =>
-            if lock_free v s then
+            if plock_free v s then
               if paused s then Some (set_c s c CIdle)
-              else Some (take v (set_c (set_paused s true) c (CPRange (seq 0 (nw s)))) (OC c))
+              else Some (ptake v (set_c (set_paused s true) c (CPRange (seq 0 (nw s)))) (OC c))
             else None
         | _ => None
         end
@@ -172,7 +204,7 @@ Definition step (v : variant) (s : state) (l : label) : option state :=
   | LPauseEnd c =>
       if c <? nc s then
         match ct s c with
-        | CPRange [] => Some (release v (set_c s c CIdle))
+        | CPRange [] => Some (prelease v (set_c s c CIdle))
         | _ => None
         end
       else None
@@ -305,7 +337,8 @@ Definition cands_c (s : state) (c : nat) : list label :=
   | _ => []
   end.
 Definition cands_w (w : nat) : list label :=
-  [LTakePause w; LSeeStop w; LAckStop w; LUnsubDelete w; LUnsubCloseP w; LUnsubCloseR w].
+  [LTakePause w; LSeeStop w; LAckStop w; LUnsubDelete w; LUnsubCloseP w; LUnsubCloseR w;
+   LDone w; LBusyStop w].
 Definition cands (s : state) : list label :=
   flat_map (cands_c s) (seq 0 (nc s)) ++ flat_map cands_w (seq 0 (nw s)).
 
@@ -328,6 +361,20 @@ Fixpoint quiesce (v : variant) (fuel : nat) (s : state) : state :=
            end
   end.
 
+(* the same scheduler for the correspondence check, where an item lasts until the driver ends it:
+   [LDone] is never picked *)
+Definition is_done (l : label) : bool := match l with LDone _ => true | _ => false end.
+Definition pick_h (v : variant) (s : state) : option label :=
+  find (fun l => negb (is_done l) && enabled v s l) (cands s).
+Fixpoint quiesce_h (v : variant) (fuel : nat) (s : state) : state :=
+  match fuel with
+  | 0 => s
+  | S k => match pick_h v s with
+           | Some l => match step v s l with Some s' => quiesce_h v k s' | None => s end
+           | None => s
+           end
+  end.
+
 (* ---- termination measure of system steps ---- *)
 Fixpoint sumf (f : nat -> nat) (n : nat) : nat :=
   match n with 0 => 0 | S k => sumf f k + f k end.
@@ -342,7 +389,9 @@ Definition cmeasure (n : nat) (x : cpc) : nat :=
   | CRRange todo aw => 2 * length todo + length aw + 1
   end.
 Definition pcmeasure (p : wpc) : nat :=
-  match p with WGone => 0 | WCloseR => 1 | WCloseP => 2 | WDel => 3 | WAck => 4 | WRun => 5 end.
+  match p with
+  | WGone => 0 | WCloseR => 1 | WCloseP => 2 | WDel => 3 | WAck => 4 | WRun => 5 | WBusy => 6
+  end.
 Definition wmeasure (x : wst) : nat := pcmeasure (w_pc x) + (if w_tok x then 1 else 0).
 Definition mu (s : state) : nat :=
   3 * sumf (fun c => cmeasure (nw s) (ct s c)) (nc s) + sumf (fun w => wmeasure (wk s w)) (nw s)
@@ -351,7 +400,7 @@ Definition mu (s : state) : nat :=
 (* ---- what a quiescent state must look like ---- *)
 Definition wpc_eqb (a b : wpc) : bool :=
   match a, b with
-  | WRun, WRun | WAck, WAck | WDel, WDel | WCloseP, WCloseP | WCloseR, WCloseR | WGone, WGone => true
+  | WRun, WRun | WBusy, WBusy | WAck, WAck | WDel, WDel | WCloseP, WCloseP | WCloseR, WCloseR | WGone, WGone => true
   | _, _ => false
   end.
 Definition is_idle_c (x : cpc) : bool := match x with CIdle => true | _ => false end.
